@@ -487,11 +487,30 @@ namespace Pistache::Http
 
             if (size == 0)
             {
-                // The last chunk is followed by the CRLF that ends the (empty)
-                // trailer section: the message is complete only once it is there.
-                if (!cursor.advance(2))
-                    return Incomplete;
-                return Final;
+                // The last chunk is followed by the trailer section: zero or
+                // more header lines (RFC 7230 4.1.2), which are skipped, and the
+                // empty line that ends it. The message is complete only once that
+                // empty line is there; a line that has not arrived completely is
+                // looked at again with the next read.
+                for (;;)
+                {
+                    StreamCursor::Revert revert(cursor);
+
+                    if (cursor.eol())
+                    {
+                        if (!cursor.advance(2))
+                            return Incomplete;
+                        revert.ignore();
+                        return Final;
+                    }
+
+                    while (!cursor.eol())
+                        if (!cursor.advance(1))
+                            return Incomplete;
+                    if (!cursor.advance(2))
+                        return Incomplete;
+                    revert.ignore();
+                }
             }
 
             StreamCursor::Token chunkData(cursor);
